@@ -951,10 +951,15 @@ async def two_clients_case(ctx, n_clients: int) -> None:
     try:
         for index in range(n_clients):
             transport = MQTTClient("127.0.0.1", broker.port, in_prefix=f"gw{index}-out", out_prefix=f"gw{index}-in")
-            await asyncio.wait_for(transport.connect(), 20)
+            try:
+                await asyncio.wait_for(transport.connect(), 20)
+            except Exception as exc:  # noqa: BLE001
+                problems.append(("connect-raises", f"connecting transport #{index} to a working broker raised "
+                                                   f"{type(exc).__name__}: {exc!s:.80}"))
+                break
             transports.append(transport)
             await asyncio.sleep(0.05)
-        for round_ in range(2):
+        for round_ in range(2 if not problems else 0):
             for index, transport in enumerate(transports):
                 await broker.publish(f"gw{index}-out/{index + 1}/0/1/0/2", f"r{round_}".encode())
             for index, transport in enumerate(transports):
